@@ -59,7 +59,8 @@ Definition dlive (v : variant) (d : dqueue) (pre tl : list byte) : Prop :=
 (* the enlargement loop of streamRecv from a MissingBuffer state *)
 Lemma grecv_loop_delivers v : forall fuel rs1 pre1 tl z d',
   rh_inv v rs1 -> rh_stop rs1 = false -> dlive v (rh_d rs1) pre1 tl -> length pre1 < 47 * fuel ->
-  grecv_loop fuel v (RErr MissingBuffer) (rh_d rs1) = Ok (z, d') -> z = 1%Z.
+  grecv_loop fuel v (RErr MissingBuffer) (rh_d rs1) = Ok (z, d') ->
+  z = 1%Z /\ dcode (dq_st d') = 0 /\ skipn (dcurr (dq_st d')) (contents (dq_q d')) = tl.
 Proof.
   induction fuel as [|fuel IH]; intros rs1 pre1 tl z d' Hi1 Est1 (Hl1 & Hu1 & Hz1) Hlen H; [lia|].
   cbn [grecv_loop] in H.
@@ -80,7 +81,11 @@ Proof.
   { unfold rh_unread in Hu2. rewrite Hu1 in Hu2. apply (f_equal (@length _)) in Hu2.
     rewrite skipn_length, contents_length, app_length in Hu2 by assumption. cbn [length] in Hu2. lia. }
   pose proof (dqueue_recv_live_kind v F2 (rh_d rs2) r2 d2 Hq2 Hc2 (Hl2 Hl1) Hne2 ltac:(rewrite E2; exact E3)) as [->| ->].
-  - rewrite grecv_loop_msg in H. inversion H. reflexivity.
+  - rewrite grecv_loop_msg in H. inversion H; subst z d'. split; [reflexivity|].
+    destruct Hcase3 as [(_ & Hc3 & Hu3)|(Hm3 & _)].
+    + rewrite Hd3 in Hc3. unfold rh_unread in Hu3. rewrite Hd3 in Hu3. split; assumption.
+    + destruct Hcase3' as [Hs|[_ [Hp' Hm']]]; [congruence|]. rewrite Hm' in Hm3.
+      apply (f_equal (@length _)) in Hm3. rewrite app_length in Hm3. destruct (pend d2); [contradiction|cbn [length] in Hm3; lia].
   - (* still MissingBuffer: at least 47 bytes of the frame were consumed *)
     destruct Hcase3 as [(Hlen3 & _)|(Hm3 & Hl3 & _ & pre2 & Hu3 & Hz3 & _ & Hcons3)].
     + (* the ghost delivered, yet the result was MissingBuffer: impossible *)
@@ -94,7 +99,8 @@ Qed.
 (* streamRecv on a ring whose unread bytes complete (or start) an accepted frame: the message *)
 Theorem grecv_delivers v rs pre tl z d' :
   rh_inv v rs -> rh_stop rs = false -> dlive v (rh_d rs) pre tl ->
-  grecv v (rh_d rs) = Ok (z, d') -> z = 1%Z.
+  grecv v (rh_d rs) = Ok (z, d') ->
+  z = 1%Z /\ dcode (dq_st d') = 0 /\ skipn (dcurr (dq_st d')) (contents (dq_q d')) = tl.
 Proof.
   intros Hi Est (Hl & Hu & Hz) H. unfold grecv in H.
   destruct (dqueue_recv v (rh_d rs)) as [[r d1]| |] eqn:E1; [|discriminate|discriminate]. cbn [bind] in H.
@@ -106,7 +112,11 @@ Proof.
   destruct (ring_recv_outcome v rs pre tl Hi Est Hl Hu Hz) as (Est1 & Hin1 & Hcase1).
   destruct (recv_step v rs r d1 Hi Est E1) as (Hd1 & _ & Hcase1' & _).
   pose proof (dqueue_recv_live_kind v F (rh_d rs) r d1 Hq Hc Hl Hne E1) as [->| ->].
-  - rewrite grecv_loop_msg in H. inversion H. reflexivity.
+  - rewrite grecv_loop_msg in H. inversion H; subst z d'. split; [reflexivity|].
+    destruct Hcase1 as [(_ & Hc1' & Hu1')|(Hm1 & _)].
+    + rewrite Hd1 in Hc1'. unfold rh_unread in Hu1'. rewrite Hd1 in Hu1'. split; assumption.
+    + destruct Hcase1' as [Hs|[_ [Hp' Hm']]]; [congruence|]. rewrite Hm' in Hm1.
+      apply (f_equal (@length _)) in Hm1. rewrite app_length in Hm1. destruct (pend d1); [contradiction|cbn [length] in Hm1; lia].
   - destruct Hcase1 as [(Hlen1 & _)|(Hm1 & Hl1 & _ & pre1 & Hu1 & Hz1 & Hlen1 & _)].
     + destruct Hcase1' as [Hs|[_ [_ Hm']]]; [congruence|]. rewrite Hm' in Hlen1. lia.
     + apply (grecv_loop_delivers v (S (qlen (dq_q (rh_d rs)))) (rh_step v rs RRecv) pre1 tl z d'
@@ -135,7 +145,7 @@ Proof.
     rewrite (dqueue_message_decoded v F (gr w) Hc), Em. eexists. reflexivity.
   - destruct Hlive as [Hl|Hbad]; [|contradiction].
     destruct (grecv v (gr w)) as [[zf d0]| |] eqn:Eg; [|discriminate|discriminate]. cbn [bind] in H.
-    pose proof (grecv_delivers v (g_rs g) pre tl zf d0 Hi Est ltac:(rewrite Hd; exact Hl) ltac:(rewrite Hd; exact Eg)) as ->.
+    destruct (grecv_delivers v (g_rs g) pre tl zf d0 Hi Est ltac:(rewrite Hd; exact Hl) ltac:(rewrite Hd; exact Eg)) as (-> & _ & _).
     cbn [Z.ltb Z.eqb Z.compare] in H.
     destruct (grecv_sim v (g_rs g) 1%Z d0 Hi Est ltac:(rewrite Hd; exact Eg)) as (rops & Hi0 & Hd0 & _ & Hcase0 & Hns0).
     destruct (Hns0 ltac:(rewrite Hd; exact Hstream)) as [Hs0 _].
@@ -143,4 +153,152 @@ Proof.
     destruct Hcase0 as [Hs|[_ [(_ & Hp & _)|(Hz' & _)]]]; [congruence| |lia].
     destruct (rh_cinv v _ Hi0 Hs0) as (_ & F0 & Hc0). rewrite Hd0 in Hc0.
     destruct (pend_single v F0 d0 Hc0 Hp) as (x & _ & Hx). exists x. exact Hx.
+Qed.
+
+(* ---------- everything that has arrived is handed over ---------- *)
+(* the reader ring holds, unread, exactly the frames of [ms]; a message may be held in front *)
+Definition atframes (v : variant) (d : dqueue) (n : nat) : Prop :=
+  exists ms C, frames_of v ms C /\ skipn (dcurr (dq_st d)) (contents (dq_q d)) = C /\ dcode (dq_st d) = 0 /\
+    n = length ms + (match dmsg (dq_st d) with Some _ => 1 | None => 0 end).
+
+Lemma idle_dlive v d m body rest : dcode (dq_st d) = 0 ->
+  skipn (dcurr (dq_st d)) (contents (dq_q d)) = body ++ [0%N] ++ rest -> sdec v body = Some m -> nozero body = true ->
+  dlive v d body rest.
+Proof.
+  intros Hc Hu Hs Hz. unfold dlive, slive. rewrite Hc. cbn [Nat.eqb]. rewrite Hu. cbn [app].
+  split; [apply (sdec_wfd0 v body m rest Hs)|]. split; [reflexivity|exact Hz].
+Qed.
+
+(* nothing unread, between messages: the receive reports "more" (or an empty queue) and stays there *)
+Lemma dqueue_recv_nothing v F d r d1 : qinv (dq_q d) -> cinv v F (dq_st d) (contents (dq_q d)) ->
+  dcode (dq_st d) = 0 -> skipn (dcurr (dq_st d)) (contents (dq_q d)) = [] ->
+  dqueue_recv v d = Ok (r, d1) ->
+  (r = RMore \/ r = RErr MissingData) /\ dcode (dq_st d1) = 0 /\ dmsg (dq_st d1) = None /\
+  skipn (dcurr (dq_st d1)) (contents (dq_q d1)) = [].
+Proof.
+  intros Hq Hc Hcode Hun H. unfold dqueue_recv in H.
+  destruct (Nat.eqb_spec (qlen (dq_q d)) 0) as [Hz|Hz].
+  { inversion H; subst r d1. split; [right; reflexivity|]. cbn [dq_st dq_q]. unfold dst_consumed.
+    destruct (dmsg (dq_st d)) eqn:Em; cbn [dcode dmsg dcurr]; rewrite ?Em; repeat split; assumption. }
+  pose proof Hc as (G1 & G2 & Hm).
+  assert (Hmsg : dmsg (dq_st d) = Some (dlen (dq_st d)) \/ (dmsg (dq_st d) = None /\ dlen (dq_st d) = 0)).
+  { destruct (dmsg (dq_st d)) as [c|]; [destruct Hm as (-> & _ & _); left; reflexivity|].
+    rewrite Hcode in Hm. cbn [Nat.eqb] in Hm. right. split; [reflexivity|apply Hm]. }
+  destruct (dec_regular_idle_empty v (dq_st d) (contents (dq_q d)) (ring_frags (dq_q d)) [qoff (dq_q d) mod 16] G1 G2 Hcode Hmsg Hun)
+    as (st' & Ereg & Hc' & Hcur').
+  pose proof (decode_ring_spec v F d Hq Hc) as Hdr.
+  pose proof (dec_call_honest v F (dq_st d) (contents (dq_q d)) (ring_frags (dq_q d)) [qoff (dq_q d) mod 16] Hc) as Hpost.
+  unfold dec_call_res in Hdr, Hpost. rewrite Ereg in Hdr, Hpost.
+  assert (Hsame : (if inl v then (DMore, st', contents (dq_q d)) else (DMore, st', contents (dq_q d))) = (DMore, st', contents (dq_q d)))
+    by (destruct (inl v); reflexivity).
+  rewrite Hsame in Hdr, Hpost.
+  destruct Hdr as (q1 & E & Hq1 & Hc1 & _). rewrite E in H. cbn [bind] in H.
+  destruct Hpost as (k & _ & _ & _ & _ & Hcc & Hmm).
+  destruct (recv_deliver_spec v _ q1 st' Hq1 ltac:(rewrite Hc1; exact Hcc)) as (c & d' & Ed & Hdrop & Hst' & _ & Hcd').
+  rewrite Ed, Hmm in H. inversion H; subst r d1. split; [left; reflexivity|].
+  rewrite Hst', Hcd', Hc1. cbn [st_drop dcode dmsg dcurr]. split; [exact Hc'|]. split; [exact Hmm|].
+  destruct Hdrop as [Hd1 _]. rewrite unread_drop by exact Hd1. rewrite Hcur'. exact Hun.
+Qed.
+
+(* one streamRecv between messages: what is left afterwards *)
+Lemma lookahead_frames v rs n z d2 : rh_inv v rs -> rh_stop rs = false ->
+  sstream v (dq_st (rh_d rs)) (contents (dq_q (rh_d rs))) ->
+  (exists ms C, frames_of v ms C /\ skipn (dcurr (dq_st (rh_d rs))) (contents (dq_q (rh_d rs))) = C /\
+     dcode (dq_st (rh_d rs)) = 0 /\ n = length ms) ->
+  grecv v (rh_d rs) = Ok (z, d2) -> atframes v d2 n /\ (n <> 0 -> z = 1%Z).
+Proof.
+  intros Hi Est Hss (ms & C & Hf & Hu & Hcode & ->) H.
+  destruct (rh_cinv v rs Hi Est) as (Hq & F & Hc).
+  destruct Hf as [|m ms body rest Hs Hz Hf].
+  - (* nothing left *)
+    split; [|intros Hn; contradiction].
+    unfold grecv in H. destruct (dqueue_recv v (rh_d rs)) as [[r d1]| |] eqn:E1; [|discriminate|discriminate]. cbn [bind] in H.
+    destruct (dqueue_recv_nothing v F (rh_d rs) r d1 Hq Hc Hcode Hu E1) as (Hr & Hc1 & Hm1 & Hu1).
+    assert (Ed : d2 = d1).
+    { destruct Hr as [-> | ->]; destruct (S (qlen (dq_q (rh_d rs)))); cbn [grecv_loop rres_z bind] in H; inversion H; reflexivity. }
+    subst d2. exists [], []. split; [constructor|]. split; [exact Hu1|]. split; [exact Hc1|]. rewrite Hm1. reflexivity.
+  - (* a complete frame: it is decoded and held *)
+    pose proof (idle_dlive v (rh_d rs) m body rest Hcode Hu Hs Hz) as Hl.
+    destruct (grecv_delivers v rs body rest z d2 Hi Est Hl H) as (-> & Hc2 & Hu2).
+    split; [|intros _; reflexivity].
+    destruct (grecv_sim v rs 1%Z d2 Hi Est H) as (rops & _ & _ & _ & Hcase & Hns).
+    destruct (Hns Hss) as [Hst _].
+    assert (Hm2 : dmsg (dq_st d2) <> None).
+    { destruct Hcase as [Hs'|[_ [(_ & Hp & _)|(Hz' & _)]]]; [congruence| |lia].
+      unfold pend in Hp. destruct (dmsg (dq_st d2)); [discriminate|contradiction]. }
+    exists ms, rest. split; [exact Hf|]. split; [exact Hu2|]. split; [exact Hc2|].
+    cbn [length]. destruct (dmsg (dq_st d2)); [lia|contradiction].
+Qed.
+
+(* one mpt_stream_dispatch while messages are left: it hands one over, one less is left *)
+Theorem gdisp_frames v w g n z m w' : grel v w g -> atframes v (gr w) (S n) ->
+  gdisp v w = Ok (z, m, w') -> (exists x, m = Some x) /\ atframes v (gr w') n.
+Proof.
+  intros Hg Hat H. pose proof (stream_of_rel v w g Hg) as Hstream.
+  destruct Hg as (_ & _ & (Hi & Est & Hd & _ & Hmsgs) & _).
+  destruct (rh_cinv v (g_rs g) Hi Est) as (_ & F & Hc). rewrite Hd in Hc.
+  destruct Hat as (ms & C & Hf & Hu & Hcode & Hn).
+  unfold gdisp in H.
+  (* the second half: deliver the held message of [d0], look ahead *)
+  assert (Hgo : forall rs0 d0 ms0 C0, rh_inv v rs0 -> rh_stop rs0 = false -> rh_d rs0 = d0 ->
+            sstream v (dq_st d0) (contents (dq_q d0)) -> (exists x, dqueue_message d0 = Some x) ->
+            frames_of v ms0 C0 -> skipn (dcurr (dq_st d0)) (contents (dq_q d0)) = C0 -> dcode (dq_st d0) = 0 -> n = length ms0 ->
+            (do '(z2, d2) <- grecv v d0; Ok ((if (0 <? z2)%Z then RETRY else 0%Z), dqueue_message d0, mkgw (gw w) d2 (gwire w))) = Ok (z, m, w') ->
+            (exists x, m = Some x) /\ atframes v (gr w') n).
+  { intros rs0 d0 ms0 C0 Hi0 Es0 Hd0 Hs0 (x & Hx) Hf0 Hu0 Hc0 Hn0 E.
+    destruct (grecv v d0) as [[z2 d2]| |] eqn:Eg; [|discriminate|discriminate]. cbn [bind] in E. inversion E; subst z m w'; clear E.
+    split; [exists x; exact Hx|]. cbn [gr].
+    apply (lookahead_frames v rs0 n z2 d2 Hi0 Es0 ltac:(rewrite Hd0; exact Hs0)
+             ltac:(exists ms0, C0; rewrite Hd0; repeat split; assumption) ltac:(rewrite Hd0; exact Eg)). }
+  destruct (dmsg (dq_st (gr w))) as [c|] eqn:Em.
+  - (* a message is held *)
+    cbn [bind] in H.
+    apply (Hgo (g_rs g) (gr w) ms C Hi Est Hd Hstream); try assumption; [|lia].
+    rewrite (dqueue_message_decoded v F (gr w) Hc), Em. eexists. reflexivity.
+  - (* receive first *)
+    destruct (grecv v (gr w)) as [[zf d0]| |] eqn:Eg; [|discriminate|discriminate]. cbn [bind] in H.
+    destruct (lookahead_frames v (g_rs g) (S n) zf d0 Hi Est ltac:(rewrite Hd; exact Hstream)
+                ltac:(exists ms, C; rewrite Hd; repeat split; try assumption; lia) ltac:(rewrite Hd; exact Eg)) as (Hat0 & Hz).
+    rewrite (Hz ltac:(lia)) in *. cbn [Z.ltb Z.eqb Z.compare] in H.
+    destruct (grecv_sim v (g_rs g) 1%Z d0 Hi Est ltac:(rewrite Hd; exact Eg)) as (rops & Hi0 & Hd0 & _ & Hcase0 & Hns0).
+    destruct (Hns0 ltac:(rewrite Hd; exact Hstream)) as [Hst0 Hs0].
+    destruct Hat0 as (ms0 & C0 & Hf0 & Hu0 & Hc0 & Hn0).
+    assert (Hp0 : pend d0 <> []) by (destruct Hcase0 as [Hs'|[_ [(_ & Hp & _)|(Hz' & _)]]]; [congruence|exact Hp|lia]).
+    assert (Hm0 : dmsg (dq_st d0) <> None) by (unfold pend in Hp0; destruct (dmsg (dq_st d0)); [discriminate|contradiction]).
+    destruct (rh_cinv v _ Hi0 Hst0) as (_ & F0 & Hcc0). rewrite Hd0 in Hcc0.
+    destruct (pend_single v F0 d0 Hcc0 Hp0) as (x & _ & Hx).
+    apply (Hgo (rh_run v (g_rs g) rops) d0 ms0 C0 Hi0 Hst0 Hd0 Hs0 ltac:(exists x; exact Hx) Hf0 Hu0 Hc0); [|exact H].
+    destruct (dmsg (dq_st d0)); [lia|contradiction].
+Qed.
+
+Fixpoint gdisp_n (v : variant) (k : nat) (w : gworld) (acc : list (list byte)) : res (gworld * list (list byte)) :=
+  match k with
+  | 0 => Ok (w, acc)
+  | S k => do '(z, m, w1) <- gdisp v w; gdisp_n v k w1 (acc ++ match m with Some x => [x] | None => [] end)
+  end.
+
+Lemma gdisp_n_prefix v : forall k ww a ww' gg, gdisp_n v k ww a = Ok (ww', gg) -> exists more, gg = a ++ more.
+Proof.
+  induction k as [|k IHk]; intros ww a ww' gg E; cbn [gdisp_n] in E.
+  - inversion E; subst. exists []. rewrite app_nil_r. reflexivity.
+  - destruct (gdisp v ww) as [[[z m] w1]| |]; [|discriminate|discriminate]. cbn [bind] in E.
+    destruct (IHk _ _ _ _ E) as (more & ->). rewrite <- app_assoc. eexists. reflexivity.
+Qed.
+
+(* ALL messages whose frames have arrived are handed over by as many dispatches: none stalls *)
+Theorem glue_dispatch_all v : forall n w g acc w' got, grel v w g -> atframes v (gr w) n ->
+  gdisp_n v n w acc = Ok (w', got) ->
+  length got = length acc + n /\ atframes v (gr w') 0 /\ exists g', grel v w' g' /\ g_del g' = g_del g ++ skipn (length acc) got.
+Proof.
+  induction n as [|n IH]; intros w g acc w' got Hg Hat H; cbn [gdisp_n] in H.
+  - inversion H; subst. split; [lia|]. split; [exact Hat|]. exists g. split; [exact Hg|].
+    rewrite skipn_all, app_nil_r. reflexivity.
+  - destruct (gdisp v w) as [[[z m] w1]| |] eqn:E; [|discriminate|discriminate]. cbn [bind] in H.
+    destruct (gdisp_frames v w g n z m w1 Hg Hat E) as ((x & ->) & Hat1).
+    destruct (gdisp_sim v w g z (Some x) w1 Hg E) as (g1 & Hg1 & _ & _ & _ & Hd1).
+    destruct (IH w1 g1 (acc ++ [x]) w' got Hg1 Hat1 H) as (Hl & Hat' & g' & Hg' & Hd').
+    rewrite app_length in Hl. cbn [length] in Hl. split; [lia|]. split; [exact Hat'|].
+    exists g'. split; [exact Hg'|]. rewrite Hd', Hd1, <- app_assoc. f_equal.
+    destruct (gdisp_n_prefix v _ _ _ _ _ H) as (more & ->).
+    rewrite (skipn_app_exact (acc ++ [x]) more). rewrite <- app_assoc. rewrite (skipn_app_exact acc ([x] ++ more)). reflexivity.
 Qed.
